@@ -68,10 +68,37 @@ def check_C04(tier, seed):
     return _sys("C04", tier, seed, ["C04"], ["mixed", "fanout", "zerodelay", "ties"], 6, 30, 6, 14, em, "small", "medium")
 
 
+def _alloc_runs(tier, seed):
+    n, ops = (10, 500) if tier == "quick" else (96, 1500)
+    return [{"driver": "ckptdrv", "args": (lambda sd: (lambda tr: [tr, sd, ops, 3 + sd % 4]))(seed * 1000 + i), "spec": "CkptTrace.tla",
+             "cfg": "CkptTrace.cfg", "label": "alloc%d" % i} for i in range(n)]
+
+
+def _alloc_mc(c, tier):
+    c.mc_phase("BuddyMC.tla", "BuddyMC.cfg", "every reachable tree of an 8-leaf arena: bookkeeping, disjointness, reuse", workers=4, timeout=600)
+    if tier == "thorough":
+        c.mc_phase("BuddyMC.tla", "BuddyMC_16.cfg", "every reachable tree of a 16-leaf arena (458,330 states)", workers=16, timeout=2400, heap="16g")
+        c.mc_phase("CkptMC.tla", "CkptMC.cfg", "multi-arena allocator with checkpoints/restore/fossil, small world, time-boxed BFS",
+                   workers=16, timeout=1500, heap="24g", ok_timeout=True)
+
+
+ALLOC_RULE = ("system runs: generated models x configurations x schedules (distinct by model, configuration, schedule seed); allocator driver: random "
+              "histories of malloc/calloc/realloc/free/write x checkpoints x restores to arbitrary earlier positions x fossil collections on the real "
+              "src/mm/buddy built with 256-byte arenas, new arenas at random address positions, one validated line per call")
+
+
 def check_C05(tier, seed):
-    em = lambda r: {"ckpt": r.choice([0, 1, 2, 3, 5, 7, 11]), "switch": r.choice(["1/8", "1/24", "1/96", "1/300"]),
-                    "threads": r.choice([2, 3, 4])}
-    return _sys("C05", tier, seed, ["C05"], ["mixed", "fanout", "ties", "zerodelay"], 6, 30, 6, 14, em)
+    c = syscamp.Campaign("C05", tier, seed, own_ids=["C05"])
+    try:
+        c.build()
+        _alloc_mc(c, tier)
+        c.driver_phase(_alloc_runs(tier, seed))
+        em = lambda r: {"ckpt": r.choice([0, 1, 2, 3, 5, 7, 11]), "switch": r.choice(["1/8", "1/24", "1/96", "1/300"]),
+                        "threads": r.choice([2, 3, 4])}
+        c.run(_models(tier, seed, ["mixed", "fanout", "ties", "zerodelay"], 6, 30), 5 if tier == "quick" else 14, emphasis=em)
+        return c.finish(rule=ALLOC_RULE)
+    finally:
+        c.close()
 
 
 def check_C06(tier, seed):
@@ -150,9 +177,17 @@ def check_C09(tier, seed):
 
 
 def check_C13(tier, seed):
-    em = lambda r: {"ckpt": r.choice([1, 2, 3, 4, 6]), "batch": 1, "period": 0, "switch": r.choice(["1/8", "1/24", "1/96"]),
-                    "threads": r.choice([2, 3, 4])}
-    return _sys("C13", tier, seed, ["C13"], ["mixed", "fanout", "zerodelay"], 6, 30, 6, 14, em, "small", "medium")
+    c = syscamp.Campaign("C13", tier, seed, own_ids=["C13"])
+    try:
+        c.build()
+        _alloc_mc(c, tier)
+        c.driver_phase(_alloc_runs(tier, seed + 7))
+        em = lambda r: {"ckpt": r.choice([1, 2, 3, 4, 6]), "batch": 1, "period": 0, "switch": r.choice(["1/8", "1/24", "1/96"]),
+                        "threads": r.choice([2, 3, 4])}
+        c.run(_models(tier, seed, ["mixed", "fanout", "zerodelay"], 6, 30, "small", "medium"), 5 if tier == "quick" else 14, emphasis=em)
+        return c.finish(rule=ALLOC_RULE)
+    finally:
+        c.close()
 
 
 def check_C10(tier, seed):
@@ -228,3 +263,210 @@ def check_C10(tier, seed):
     finally:
         if not os.environ.get("VERIF_KEEP"):
             shutil.rmtree(scr, ignore_errors=True)
+
+
+def _driver_check(pid, tier, seed, runs, level="model_checking", rule="", assumptions=None, exhaustive=False, mc=None,
+                  extra_cov=None, variant="plain", build_extra=""):
+    """runs: list of dicts {driver, args (callable(trace_path)->list), spec, cfg, env, label, sample(callable)}.
+    Each run: execute the driver built from /repo's working tree, validate its ndjson output with TLC."""
+    import re as _re
+    t0 = time.time()
+    scr = vlib.scratch()
+    viol, mach, samples = [], [], []
+    states = lines = ntr = 0
+    cov_extra = dict(extra_cov or {})
+    try:
+        bdir = vlib.build(os.path.join(scr, "build"), variant, build_extra)
+        if mc:
+            for (mspec, mcfg, label, kw) in mc:
+                r = vlib.tlc(mspec, mcfg, extra=["-noGenerateSpecTE"], **kw)
+                cov_extra.setdefault("model_checking_runs", []).append(
+                    {"spec": mspec, "cfg": mcfg, "what": label, "states": r["states"], "distinct": r["distinct"],
+                     "depth": r["depth"], "violated": r["violated"], "error": r["error"], "timeout": r["timeout"],
+                     "wall_s": round(r["wall"], 1)})
+                states += r["distinct"]
+                if r["violated"]:
+                    viol.append({"what": "TLC: %s violated in %s/%s (%s)" % (r["violated"], mspec, mcfg, label), "trace": None,
+                                 "label": label, "line": 0, "text": ""})
+                elif r["error"] or (r["timeout"] and not kw.get("ok_timeout")) or not r["distinct"]:
+                    mach.append("model checking of %s/%s failed: %s" % (mspec, mcfg, r["error"] or "timeout/no states"))
+
+        def one(run):
+            tr = os.path.join(scr, "t_%s.ndjson" % run["label"])
+            rc, out = vlib.sh([os.path.join(bdir, run["driver"])] + [str(a) for a in run["args"](tr)], timeout=run.get("timeout", 300))
+            if rc != 0 and not run.get("rc_ok"):
+                return {"run": run, "verdict": "machinery", "why": "driver rc=%d %s" % (rc, out[-300:]), "trace": tr}
+            v = vlib.validate_trace(run["spec"], run["cfg"], tr, timeout=run.get("tlc_timeout", 1500))
+            return {"run": run, "verdict": v["verdict"], "v": v, "trace": tr, "drv_out": out}
+
+        for res in vlib.pmap(one, runs):
+            ntr += 1
+            v = res.get("v")
+            if v:
+                states += v["distinct"]
+                if v.get("res"):
+                    lines += v["res"]["reached"]
+            if res["verdict"] == "ok":
+                if len(samples) < 3:
+                    try:
+                        samples.append({"run": res["run"]["label"], "first_lines": open(res["trace"]).read(600).split("\n")[:3]})
+                    except Exception:
+                        pass
+                continue
+            if res["verdict"] == "bad":
+                b = v["res"]["bad"][0]
+                txt = ""
+                try:
+                    txt = open(res["trace"]).read().split("\n")[b["at"] - 1][:400]
+                except Exception:
+                    pass
+                if b["p"] == "DIV":
+                    mach.append("divergence in %s: %s at line %d %s" % (res["run"]["label"], b["w"], b["at"], txt))
+                else:
+                    viol.append({"what": b["w"], "trace": res["trace"], "label": res["run"]["label"], "line": b["at"], "text": txt,
+                                 "p": b["p"]})
+            else:
+                mach.append("%s: trace %s %s %s" % (res["run"]["label"], res["verdict"], res.get("why", ""),
+                                                    json.dumps((v or {}).get("res"))[:300] + ((v or {}).get("error") or "")))
+        kf = vlib.known_findings()
+        rc = 0
+        real = []
+        for x in viol:
+            known = None
+            for f in kf.get("findings", []):
+                if f.get("property") == pid and f.get("match") and f["match"] in (x["what"] + " " + x["text"]):
+                    known = f
+            if known:
+                print("KNOWN-FINDING: property=%s %s" % (pid, known["what"]))
+            else:
+                real.append(x)
+        for k, x in enumerate(real[:3]):
+            rp = vlib.save_replay(pid, "v%d" % (k + 1), [x["trace"]], {"property": pid, "what": x["what"], "line": x["line"],
+                                                                     "text": x["text"], "run": x["label"]})
+            print("VIOLATION property=%s replay=%s  (%s; line %s: %s)" % (pid, rp, x["what"], x["line"], x["text"][:300]))
+            rc = 1
+        if mach and rc == 0:
+            print("MACHINERY-FAILURE", mach[0][:600])
+            rc = 2
+        cov = {"states": max(1, states), "transitions": max(1, states), "traces_validated_against_impl": ntr,
+               "samples": samples or [{"note": "none accepted"}], "evaluations": max(1, lines), "distinct_nontrivial": max(2, lines) if lines > 1 else 0,
+               "rule": rule, "trace_lines_validated": lines, "exhaustive": exhaustive}
+        cov.update(cov_extra)
+        vlib.write_evidence(pid, tier, seed, level, cov, time.time() - t0, violations=len(real), assumptions=assumptions or [])
+        return rc
+    finally:
+        if not os.environ.get("VERIF_KEEP"):
+            shutil.rmtree(scr, ignore_errors=True)
+        else:
+            print("scratch kept:", scr)
+
+
+def check_C16(tier, seed):
+    runs = [{"driver": "orderdrv", "args": lambda tr: [tr], "spec": "OrderTrace.tla", "cfg": "OrderTrace.cfg", "label": "order"}]
+    return _driver_check("C16", tier, seed, runs, exhaustive=True,
+                         rule="all 192 events over t in {0,1} x anti x type in {0,1,65534} x size in {0,1,2,32,33,40} x 3 byte patterns "
+                              "(first/last byte differ; last byte of 33/40-byte payloads lies beyond the 32-byte base area): every ordered pair "
+                              "evaluated by the real msg_is_before and q_elem_is_before with all non-content fields varied (one trace line per row of 192 "
+                              "pairs); TLC evaluates irreflexivity, asymmetry, transitivity and transitivity of incomparability over all triples",
+                         assumptions=["domain is finite; payload bytes restricted to 3 patterns per size"])
+
+
+def check_C14(tier, seed):
+    b = (48, 6, 6) if tier == "quick" else (120, 8, 8)
+    nchunks = 4 if tier == "quick" else 16
+    runs = [{"driver": "partdrv", "args": (lambda i: (lambda tr: [tr, b[0], b[1], b[2], nchunks, i]))(i), "spec": "PartitionTrace.tla",
+             "cfg": "PartitionTrace.cfg", "label": "part%d" % i} for i in range(nchunks)]
+    mc = [("PartitionMC.tla", "PartitionMC.cfg" if tier == "quick" else "PartitionMC_big.cfg",
+           "C14 on the specification for every triple up to the bound", {"workers": 1, "timeout": 1500})]
+    return _driver_check("C14", tier, seed, runs, exhaustive=True, mc=mc,
+                         rule="every (LPs <= %d, ranks <= %d, threads <= %d) triple and every rank: one trace line with the tables computed by the "
+                              "real lp_global_init/partition_start/lid_to_nid/lid_to_rid; ranks with no LP and more threads than LPs included" % b,
+                         assumptions=["ownership in running systems (LP_INIT/execute/LP_FINI by the owner, routing of every event) is checked "
+                                      "by the C14-labelled checks of TimeWarpTrace in every system-level run"])
+
+
+def check_C12(tier, seed):
+    c = syscamp.Campaign("C12", tier, seed, own_ids=["C12"])
+    try:
+        c.build()
+        _alloc_mc(c, tier)
+        runs = _alloc_runs(tier, seed + 13)
+        if tier == "quick":
+            runs += [dict(r, label=r["label"] + "b", args=(lambda sd: (lambda tr: [tr, sd, 500, 4]))(seed * 77 + i)) for i, r in enumerate(runs[:6])]
+        c.driver_phase(runs)
+        return c.finish(rule=ALLOC_RULE, assumptions=[
+            "small-arena build (ROOTSIM_VERIF_B_TOTAL_EXP=8, B_BLOCK_EXP=4): same source, other constants",
+            "block contents abstracted to a tag pattern written and read back by the driver",
+            "production constants are exercised by the system-level runs (size accounting and digests at every event)"])
+    finally:
+        c.close()
+
+
+def check_C11(tier, seed):
+    """memory safety / UB: (i) size accounting and message-buffer ownership evaluated by TLC on every trace (C11-labelled checks
+    of TimeWarpTrace and CkptTrace), (ii) the same specification-driven runs re-executed by an ASan+UBSan build"""
+    c = syscamp.Campaign("C11", tier, seed, own_ids=["C11"])
+    try:
+        c.build()
+        c.driver_phase(_alloc_runs(tier, seed + 3))
+        em = lambda r: {"ckpt": r.choice([0, 1, 2, 5]), "threads": r.choice([1, 2, 3, 4])}
+        results = c.run(_models(tier, seed, ["mixed", "fanout", "zerodelay", "ties", "nonmono"], 5, 24), 4 if tier == "quick" else 10, emphasis=em)
+        # sanitizer build: re-execute every accepted run and some allocator histories
+        abdir = os.path.join(c.scr, "build_asan")
+        vlib.build(abdir, "asan")
+        env = {"ASAN_OPTIONS": "detect_leaks=0:abort_on_error=0:exitcode=66:handle_segv=0:handle_abort=0",
+               "UBSAN_OPTIONS": "print_stacktrace=1:halt_on_error=1:exitcode=66"}
+        jobs = [r for r in results if r.get("verdict") in ("ok", "bad")]
+
+        def san(res):
+            out_tr = res["trace"] + ".asan"
+            args = ["--model", res["md"]["txt"], "--out", out_tr] + syscamp.cfg_args(res["cfg"])
+            try:
+                rc, out = vlib.sh([os.path.join(abdir, "twh")] + [str(a) for a in args], timeout=300, env=env)
+            except Exception as ex:
+                return {"res": res, "rc": -9, "out": str(ex)}
+            return {"res": res, "rc": rc, "out": out}
+
+        sres = vlib.pmap(san, jobs)
+
+        def san_alloc(i):
+            tr = os.path.join(c.scr, "asan_alloc_%d.ndjson" % i)
+            try:
+                rc, out = vlib.sh([os.path.join(abdir, "ckptdrv"), tr, str(seed * 31 + i), "800", str(3 + i % 4)], timeout=300, env=env)
+            except Exception as ex:
+                return {"rc": -9, "out": str(ex), "i": i}
+            return {"rc": rc, "out": out, "i": i}
+
+        ares = vlib.pmap(san_alloc, list(range(6 if tier == "quick" else 40)))
+        nsan = 0
+        for s in sres:
+            nsan += 1
+            if "AddressSanitizer" in s["out"] or "runtime error:" in s["out"]:
+                rep = os.path.join(c.scr, "san_%d.txt" % nsan)
+                open(rep, "w").write(s["out"][-8000:])
+                first = [x for x in s["out"].split("\n") if "ERROR: AddressSanitizer" in x or "runtime error:" in x][:1]
+                c.violations.append({"property": "C11", "what": "sanitizer report in a specification-driven run: %s" % (first[0][:300] if first else ""),
+                                     "line": 0, "cfg": s["res"]["cfg"], "model": (s["res"]["md"]["family"], s["res"]["md"]["mseed"]),
+                                     "trace": rep, "md": s["res"]["md"]})
+            elif s["rc"] not in (0, 3, 4):
+                c.machinery.append({"property": "C11", "what": "sanitizer build run failed rc=%s %s" % (s["rc"], s["out"][-300:])})
+        for a in ares:
+            nsan += 1
+            if "AddressSanitizer" in a["out"] or "runtime error:" in a["out"]:
+                rep = os.path.join(c.scr, "san_alloc_%d.txt" % a["i"])
+                open(rep, "w").write(a["out"][-8000:])
+                first = [x for x in a["out"].split("\n") if "ERROR: AddressSanitizer" in x or "runtime error:" in x][:1]
+                c.violations.append({"property": "C11", "what": "sanitizer report in an allocator history: %s" % (first[0][:300] if first else ""),
+                                     "line": 0, "cfg": {"driver": "ckptdrv", "seed": seed * 31 + a["i"]}, "model": ("ckptdrv", a["i"]), "trace": rep, "md": {}})
+            elif a["rc"] != 0:
+                c.machinery.append({"property": "C11", "what": "sanitizer build of ckptdrv failed rc=%s %s" % (a["rc"], a["out"][-300:])})
+        return c.finish(extra_cov={"sanitizer_reexecutions": nsan,
+                                   "explanation": "TLC decides the C11-labelled checks (checkpoint size counter equals the bytes a checkpoint needs, "
+                                                  "recomputed from the real allocation trees at every event/rollback/allocator call; no message buffer freed "
+                                                  "twice, used after free or freed while reachable; inbox empty at queue teardown); memory errors TLA+ cannot "
+                                                  "express are watched by ASan+UBSan while the same specification-driven runs are re-executed"},
+                        rule=ALLOC_RULE + "; every accepted system run and extra allocator histories re-executed under ASan+UBSan",
+                        assumptions=["sanitizers only see the executions that are run: inputs outside the generated model family are not covered",
+                                     "sequential-consistency interleavings only; no weak-memory reorderings"])
+    finally:
+        c.close()
